@@ -71,6 +71,7 @@ def c14():
                       "ref_ext": i + 1, "ref_copy_lit": i + 1, "ref_copy_match": o + 1, "ref_lz4": 5, "vh_bytes": i + 1, "vh_lz4": o + 1}
                 qs.append(Q(f"lz4_shape_l{l0}_m{ml}_l{l1}", "C14_lz4.cpp", "vh_lz4", {"IN": i, "OUT": o, "TOK0": (l0 << 4) | (ml - 4), "TOK1": l1 << 4}, unwind=o + 3, unwindset=us,
                             tiers=("quick", "thorough") if quick else ("thorough",)))
+    qs += [x for x in QUERIES["C16"]() if x.name.startswith("table_Silf_lz4")]     # the wrapper: an accepted compressed table holds exactly what the block decodes to
     return qs
 
 # ------------------------------------------------------------------------------------------- C07
